@@ -7,7 +7,7 @@
 //! `_score` from the returned score, ties by segment then document ordinal).
 //! Correspondence: ids in order and scores (rel 2e-5) against the Lean model
 //! (`SL.Sort.search` over keys built by `SL.Sort.buildKey`, scores from `SL.Bm25`).
-use super::c09::{analysed_segments, build_index, gen_doc, has_hook, schema_json, split_query, Ranking, TEXT_FIELDS};
+use super::c09::{analysed_segments, build_index, gen_doc, has_hook, repeated_term, schema_json, split_query, Ranking, TEXT_FIELDS};
 use crate::idx;
 use crate::proto::Driver;
 use crate::rng::Rng;
@@ -171,6 +171,11 @@ fn gen_query(rng: &mut Rng, vocab: usize) -> (Value, &'static str) {
   let mut ws: Vec<&str> = WORDS[..vocab].to_vec();
   rng.shuffle(&mut ws);
   let n = (1 + rng.below(3)).min(ws.len());
+  if n >= 2 && rng.chance(1, 4) {
+    // the same term scored by two clauses
+    let j = 1 + rng.below(n - 1);
+    ws[j] = ws[0];
+  }
   let bo = |rng: &mut Rng| match rng.below(3) {
     0 => Some(2.0),
     1 => Some(0.5),
@@ -458,6 +463,9 @@ impl Prop for C10 {
     }
     if hook {
       s.count("with_score_hook");
+    }
+    if repeated_term(&case["query"]) {
+      s.count("term_scored_by_two_clauses");
     }
     // the model's page for the request's own limit (bounded heap / per-segment top-k + merge)
     let mall_prefix: Vec<String> = mh.iter().take(limit).map(|h| h.0.clone()).collect();
